@@ -94,6 +94,14 @@ def render(case, abs_path):
         else:
             segs.append(s)
     enc = case["enc"]
+    if enc.endswith("tail"):
+        # /<collection>/<one segment spelling ../../name>
+        dot, sep = {"pcttail": ("..", "%2F"), "dbltail": ("%252e%252e", "%252F"),
+                    "fwtail": (urllib.parse.quote("\uff0e\uff0e"), urllib.parse.quote("\uff0f")),
+                    "leadertail": (urllib.parse.quote("\u2025"), urllib.parse.quote("\uff0f")),
+                    "mixtail": ("%2e" + urllib.parse.quote("\uff0e"), urllib.parse.quote("\u2215"))}[enc]
+        tail = sep.join([dot] * (len(segs) - 2) + ["new.ics"])
+        return "/" * case["lead"] + segs[0] + "/" + tail
 
     def e(s):
         if s in (".", "..") and enc in ("pctdot", "pctslash"):
@@ -102,13 +110,18 @@ def render(case, abs_path):
             return s.replace(".", "%2E", 1).replace(".", "%2e")
         if s in (".", "..") and enc in ("dblpctdot", "dblboth"):
             return s.replace(".", "%252e")
+        if s in (".", "..") and enc in ("fwdot", "fwboth"):
+            return urllib.parse.quote(s.replace(".", "\uff0e"))
+        if s in (".", "..") and enc == "leaderdot":
+            return urllib.parse.quote("\u2025" if s == ".." else "\u2024")
         return urllib.parse.quote(s)
     parts = [e(s) for s in segs]
     if enc == "pctslash" and len(parts) >= 2:
         parts = parts[:-2] + [parts[-2] + "%2f" + parts[-1]]
-    if enc in ("allpctslash", "dblpctslash", "dblboth"):
-        # every separator escaped (once / twice): the whole target is one segment on the wire
-        return "/" * case["lead"] + {"allpctslash": "%2F", "dblpctslash": "%252F", "dblboth": "%252f"}[enc].join(parts)
+    if enc in ("allpctslash", "dblpctslash", "dblboth", "fwboth"):
+        # every separator escaped (once / twice) or a look-alike: the whole target is one segment on the wire
+        return "/" * case["lead"] + {"allpctslash": "%2F", "dblpctslash": "%252F", "dblboth": "%252f",
+                                     "fwboth": urllib.parse.quote("\uff0f")}[enc].join(parts)
     return "/" * case["lead"] + "/".join(parts)
 
 
